@@ -391,7 +391,7 @@ Fixpoint rl_verdicts_for (c : lim_config) (k : lim_addr) (h : list rl_arrival) (
   | _, _ => []
   end.
 
-(* total (unscaled) cost ADMITTED (result RlOk) for subnet key k at times within [t0, t1] *)
+(* total (unscaled) cost GRANTED (result RlOk) for subnet key k at times within [t0, t1] *)
 Fixpoint rl_granted (o : opts) (k : lim_addr) (t0 t1 : Z) (h : list rl_arrival) (ds : list rl_res) : Z :=
   match h, ds with
   | (t, a, n) :: h', d :: ds' =>
